@@ -46,11 +46,17 @@ func TestC04_Schedules(t *testing.T) {
 		inside := map[string]int{}
 		maxInside := 0
 		gate := &sim.Gate{}
+		// a quarter of the cases use long source identifiers (bearer tokens) that differ only at the end
+		longPrefix := ""
+		if rapid.IntRange(0, 3).Draw(t, "longSourceNames") == 0 {
+			longPrefix = strings.Repeat(rapid.SampledFrom([]string{"k", "Bearer.eyJhbGciOi"}).Draw(t, "lp"), rapid.IntRange(9, 140).Draw(t, "lpn"))
+		}
 		gate.OnEnter = func(c *sim.Call, r *http.Request) {
 			mu.Lock()
-			inside[r.Header.Get("X-Src")]++
-			if inside[r.Header.Get("X-Src")] > maxInside {
-				maxInside = inside[r.Header.Get("X-Src")]
+			k := strings.TrimPrefix(r.Header.Get("X-Src"), longPrefix)
+			inside[k]++
+			if inside[k] > maxInside {
+				maxInside = inside[k]
 			}
 			mu.Unlock()
 		}
@@ -101,7 +107,7 @@ func TestC04_Schedules(t *testing.T) {
 		start := func(src string, mustAdmit, mustReject bool) {
 			ctx, cancel := context.WithCancel(context.Background())
 			req := httptest.NewRequest("GET", "http://x/", nil).WithContext(ctx)
-			req.Header.Set("X-Src", src)
+			req.Header.Set("X-Src", longPrefix+src)
 			unidentifiable := false
 			if byIP {
 				req.RemoteAddr = ipOf[src] + ":" + fmt.Sprint(rapid.IntRange(1024, 65535).Draw(t, "port"))
@@ -181,7 +187,7 @@ func TestC04_Schedules(t *testing.T) {
 				mutations++
 			case 1: // ... or rewrites it to another source's value
 				other := rapid.SampledFrom(srcs).Draw(t, "rewriteTo")
-				o.Mutate = func(r *http.Request) { r.Header.Set("X-Src", other); r.Header.Del("X-Grp") }
+				o.Mutate = func(r *http.Request) { r.Header.Set("X-Src", longPrefix+other); r.Header.Del("X-Grp") }
 				mutations++
 			}
 			if err := f.c.Finish(o); err != nil {
